@@ -295,8 +295,12 @@ macro_rules! quaternion_complete_mod {
                 where T: Real + Add<T, Output=T>
             {
                 // From GLM
-                let (from, to) = (from.into(), to.into());
-                let norm_u_norm_v = (from.dot(from) * to.dot(to)).sqrt();
+                let (from, to): (Vec3<T>, Vec3<T>) = (from.into(), to.into());
+                // NOTE: Only the directions matter. Normalizing them first keeps the products below
+                // from overflowing or underflowing for very long or very short vectors
+                // (GLM's version expects normalized vectors).
+                let (from, to) = (from.normalized(), to.normalized());
+                let norm_u_norm_v = T::one();
                 let w = norm_u_norm_v + from.dot(to);
                 // For opposite directions `w` is zero up to the rounding of the two terms above,
                 // which can reach a few epsilons of `norm_u_norm_v`; a threshold of one epsilon
